@@ -80,6 +80,21 @@ def check_template(ctx, model, prop, only=None):
         if missing:
             raise AnalysisError(f"generated functions {missing} not found in the "
                                 "template")
+        # helper functions the template generates next to the six: inlined into
+        # the functions that call them before those are judged
+        extra = {k: v for k, v in inst.funcs.items() if k not in need}
+        if extra:
+            from ..inline import Inliner
+
+            class _Gen(Inliner):
+                def resolve(self, call):
+                    f = call.func
+                    if isinstance(f, ast.Name) and f.id in self.module_funcs:
+                        return self.module_funcs[f.id], False
+                    return None
+            inl = _Gen(extra)
+            for k in need:
+                inst.funcs[k] = inl.apply(inst.funcs[k])
         if only in (None, "eqhash"):
             _check_eq(ctx, tag, loc, inst, fields)
             _check_hash(ctx, tag, loc, inst, fields)
@@ -112,12 +127,17 @@ def _check_eq(ctx, tag, loc, inst, fields):
                 ("compare", ("IsNot",), ("typeof", SELF), (("typeof", OTHER),)),
                 ("compare", ("NotEq",), ("typeof", SELF), (("typeof", OTHER),)),
                 ("compare", ("NotEq",), ("call", "hash", (SELF,), ()),
-                 (("call", "hash", (OTHER,), ()),)))
+                 (("call", "hash", (OTHER,), ()),)),
+                # the cached hashes are the hashes (the cache rules below)
+                ("compare", ("NotEq",), ("attr", SELF, "_hash_value"),
+                 (("attr", OTHER, "_hash_value"),)))
             EQ = (
                 ("compare", ("Is",), ("typeof", SELF), (("typeof", OTHER),)),
                 ("compare", ("Eq",), ("typeof", SELF), (("typeof", OTHER),)),
                 ("compare", ("Eq",), ("call", "hash", (SELF,), ()),
-                 (("call", "hash", (OTHER,), ()),)))
+                 (("call", "hash", (OTHER,), ()),)),
+                ("compare", ("Eq",), ("attr", SELF, "_hash_value"),
+                 (("attr", OTHER, "_hash_value"),)))
 
             def implies_unequal(v, pol):
                 """does (v evaluating to pol) imply that self != other?"""
@@ -646,49 +666,55 @@ def _unhashable_fields_normalised(ctx, model, nodes):
                        "unhashable value passed for it hashable: hash(node) raises")
                 continue
             me = pi.node.args.args[0].arg
-            sf = f"{me}.{f}"
+            SELF = ("param", me)
+            FV = ("attr", SELF, f)
             bad = None
-            for path in paths(pi.node, loop_mode="01"):
-                if path[-1][0] == "raise":
+            for ps in summarize(pi.node, plain=True, loop_mode="01"):
+                if ps.term == "raise":
                     continue
                 okp = False
-                for it in path:
-                    if it[0] == "stmt":
-                        for c in ast.walk(it[1]):
-                            if not isinstance(c, ast.Call):
-                                continue
-                            fn = ast.unparse(c.func)
-                            if fn == "hash" and len(c.args) == 1 and \
-                                    ast.unparse(c.args[0]) == sf:
-                                okp = True
-                            if fn in ("object.__setattr__", "setattr") and \
-                                    len(c.args) == 3 and \
-                                    ast.unparse(c.args[0]) == me and \
-                                    isinstance(c.args[1], ast.Constant) and \
-                                    c.args[1].value == f:
-                                v = c.args[2]
-                                if isinstance(v, ast.Call) and ast.unparse(
-                                        v.func).split(".")[-1] in IMMUTABLE_CTORS:
-                                    okp = True
-                                else:
-                                    raise AnalysisError(
-                                        f"{n.name}.__post_init__ stores "
-                                        f"{ast.unparse(v)} into {f}: not a "
-                                        "constructor the rule knows as immutable")
-                    elif it[0] == "cond":
-                        t, pol = it[1], it[2]
-                        if isinstance(t, ast.UnaryOp) and isinstance(t.op, ast.Not):
-                            t, pol = t.operand, not pol
-                        if isinstance(t, ast.Call) and ast.unparse(t.func) == \
-                                "isinstance" and len(t.args) == 2 and \
-                                ast.unparse(t.args[0]) == sf and pol:
-                            cl = t.args[1].elts if isinstance(
-                                t.args[1], ast.Tuple) else [t.args[1]]
-                            if all(ast.unparse(x).split(".")[-1] in
-                                   IMMUTABLE_CTORS | {"Hashable"} for x in cl):
+                for e in ps.events:
+                    if e.kind != "call":
+                        continue
+                    if e.name == "hash" and e.args == (FV,):
+                        okp = True          # probed (the path went on)
+                    if e.name in ("object.__setattr__", "setattr") and \
+                            len(e.args) == 3 and e.args[0] == SELF and \
+                            e.args[1] == ("const", f):
+                        # (the abstract value sees through copies: read the
+                        # constructor off the syntax, following a local)
+                        va = e.node.args[2]
+                        if isinstance(va, ast.Name):
+                            last = None
+                            for it_ in ps.items:
+                                if it_[0] == "stmt" and isinstance(
+                                        it_[1], ast.Assign) and any(
+                                        isinstance(t, ast.Name) and t.id == va.id
+                                        for t in it_[1].targets):
+                                    last = it_[1].value
+                            va = last if last is not None else va
+                        if isinstance(va, ast.Call) and ast.unparse(
+                                va.func).split(".")[-1] in IMMUTABLE_CTORS:
+                            okp = True
+                        else:
+                            raise AnalysisError(
+                                f"{n.name}.__post_init__ stores "
+                                f"{ast.unparse(va)} into {f}: not a constructor "
+                                "the rule knows as immutable")
+                from ..summary import facts_of
+                for _, pol0, v0 in ps.conds:
+                    if not isinstance(v0, tuple):
+                        continue
+                    for v, pol in facts_of(v0, pol0):
+                        if pol and isinstance(v, tuple) and v and v[0] == "call" \
+                                and v[1] == "isinstance" and v[2][0] == FV:
+                            names = str(v[2][1])
+                            if any(c in names for c in IMMUTABLE_CTORS | {
+                                    "Hashable"}) and "dict'" not in names.replace(
+                                        "immutabledict", ""):
                                 okp = True
                 if not okp:
-                    bad = path
+                    bad = ps
                     break
             ctx.ob(rid, bad is None, n.cls.loc(pi.node),
                    f"every path out of {n.name}.__post_init__ leaves {f} hashable "
